@@ -51,6 +51,52 @@ def main():
     assert a.job_alive() and a.job_parked_with_timeout()
     assert not W.harness_problems, W.harness_problems
     W.close()
+    # 2a. virtual locks: a controlled thread and the driver both wait in virtual time for a lock held across a hold; re-entrant variant
+    W = World(2, eager=0.0)
+    sim = W.sim
+    L = engine.VLock()
+    RL = engine.VRLock()
+    order = []
+
+    def holder():
+        with L:
+            with RL:
+                with RL:
+                    order.append(('h-in', round(sim.now, 4)))
+                    sim.block_current(until=sim.now + 0.01, waitobj=engine.HOLD, jitter=False)
+                    order.append(('h-out', round(sim.now, 4)))
+
+    def other():
+        engine._vsleep(0.002)
+        with L:
+            order.append(('o-in', round(sim.now, 4)))
+    sim.spawn(holder, name='H')
+    sim.spawn(other, name='O')
+
+    def app():
+        order.append(('app-try', round(sim.now, 4)))
+        with L:
+            order.append(('app-in', round(sim.now, 4)))
+    sim.at(0.005, app)
+    sim.run(until=1.0)
+    names = [o[0] for o in order]
+    assert names[:3] == ['h-in', 'app-try', 'h-out'] and set(names[3:]) == {'app-in', 'o-in'}, order
+    assert all(t >= 0.01 for (n, t) in order[3:]) and sim.lock_waits == 2 and not sim.held_locks, (order, sim.lock_waits, sim.held_locks)
+    assert L.acquire(False) and not L.acquire(False), 'non-blocking acquire'
+    L.release()
+    # 2b. the job thread of a stack registers with the sleep monitor, a receive thread handles frames in order, the bystander stays quiet
+    W.bystander_mode = 'before'
+    a = W.stack('A', rx_thread=True)
+    b = W.stack('B')
+    ca = W.ca(a, 0x10, identity_number=1)
+    cb = W.ca(b, 0x20, identity_number=2)
+    W.listen_ca(ca, 'A')
+    pay = list(range(40))
+    sim.at(sim.now + 0.01, lambda: W.call('s', cb.send_pgn, 0, 0xD0, 0x10, 6, pay))
+    sim.run(until=sim.now + 3.0)
+    assert [d[4] for d in W.deliv['A']] == [bytes(pay)], W.deliv['A']
+    assert a.sleep_checks > 0 and not a.sleep_problems and not W.bystander_problems(), (a.sleep_checks, a.sleep_problems, W.bystander_problems())
+    W.close()
     # 3. no thread outlives a case
     import threading
     assert threading.active_count() <= 2, threading.enumerate()
